@@ -222,6 +222,31 @@ func cmdCheck(args []string) int {
 		}
 		w.ActiveVariant = ""
 	}
+	if pc.Panics {
+		// panic freedom: a repository function that a checked function calls without the engine
+		// being able to model the call (no contract, not inlinable) is swept itself — otherwise a
+		// new helper on the check path would escape the sweep
+		byFull := map[string]*ssa.Function{}
+		for _, fn := range p.allRepoFuncs() {
+			byFull[fn.String()] = fn
+		}
+		for i := 0; i < len(results) && i < 400; i++ {
+			for _, a := range results[i].Assumptions {
+				if !strings.HasPrefix(a, "unmodelled-call:") {
+					continue
+				}
+				name := strings.TrimPrefix(a, "unmodelled-call:")
+				if at := strings.LastIndex(name, "@"); at >= 0 {
+					name = name[:at]
+				}
+				if fn := byFull[name]; fn != nil && fn.Parent() == nil && !seenFn[displayName(fn)] {
+					seenFn[displayName(fn)] = true
+					pc.Sweep = append(pc.Sweep, displayName(fn))
+					results = append(results, genFunc(p, w, fn, w.contractFor(fn), exceptsFor(known, displayName(fn))))
+				}
+			}
+		}
+	}
 	for _, ln := range pc.Lemmas {
 		ax := w.AxByName[ln]
 		if ax == nil || !ax.Lemma {
